@@ -255,8 +255,7 @@ def shape_and_bytes(rep, nmfu):
         try:
             c = tv.compile_program(nmfu, p["src"], ["-O0"])
         except Exception as e:
-            rep.failed_ob(Finding("C15", oid, p["name"] + "|compile", f"{p['name']}: does not compile: {type(e).__name__}: {str(e)[:200]}", replay={"source": p["src"]}, replayed=True))
-            rep.obligations -= 1
+            rep.bounded_violation(Finding("C15", oid, p["name"] + "|compile", f"{p['name']}: does not compile: {type(e).__name__}: {str(e)[:200]}", replay={"source": p["src"]}, replayed=True))
             continue
         # walk the machine from the start: first literal = plain chain over p["bytes"], second = case-insensitive chain
         st = c.cctx.dfa.starting_state
@@ -277,8 +276,7 @@ def shape_and_bytes(rep, nmfu):
         if okk:
             rep.bounded_count("literal chains whose every state accepts exactly the spelled byte (either ASCII case for i-literals) and fails elsewhere", 1)
         else:
-            rep.failed_ob(Finding("C15", oid, p["name"] + "|chain", f"{p['name']}: {msg}", replay={"source": p["src"]}, replayed=True))
-            rep.obligations -= 1
+            rep.bounded_violation(Finding("C15", oid, p["name"] + "|chain", f"{p['name']}: {msg}", replay={"source": p["src"]}, replayed=True))
     return ps
 
 
